@@ -141,17 +141,18 @@ partial def seOf (j : Json) : SE :=
   | "neg" => .neg (seOf (j.getObjValD "e"))
   | "fn" => .fn ((j.getObjValD "keeps").getBool?.toOption.getD false) (seOf (j.getObjValD "e"))
   | "agg" => .agg ((j.getObjValD "keeps").getBool?.toOption.getD false) (seOf (j.getObjValD "e"))
+  | "unlessOn" => .unlessOn (seOf (j.getObjValD "l")) (seOf (j.getObjValD "r"))
   | _ => .bin (opOf ((j.getObjValD "op").getStr?.toOption.getD "")) ((j.getObjValD "bool").getBool?.toOption.getD false)
       (seOf (j.getObjValD "l")) (seOf (j.getObjValD "r"))
 
-/-- op: lfstatic <SE json> → always known num|- dead -/
+/-- op: lfstatic <SE json> → always known num|- dead cond -/
 def lfstatic (args : List String) : String :=
   match args with
   | [js] => match Json.parse js with
     | .error _ => "bad-op"
     | .ok j =>
       let st := Pint.StaticFlow.static (seOf j)
-      s!"{st.always} {st.known} " ++ (if st.known then toString st.num else "-") ++ s!" {st.dead}"
+      s!"{st.always} {st.known} " ++ (if st.known then toString st.num else "-") ++ s!" {st.dead} {st.cond}"
   | _ => "bad-op"
 
 /-- op: lfeval <SE json> → s:k | v:k | v:none (closed expressions) -/
